@@ -114,6 +114,32 @@ def plan_before_trigger(P, G, R, rid, qual, planner):
             u.loc(), '%s does not call %s in its loop and self.next() after it' % (qual, planner))
 
 
+def rule_restart_sequence(P, R, r7):
+    """restart_sequence is refused while ANY instance still has start / stop jobs (shared with C17)."""
+    u = P.unit('RPCInterface.restart_sequence')
+    fm = factmap(u)
+    rs = [c for c in own_nodes(u.node) if isinstance(c, ast.Call) and call_text(c) == 'self._raise' and c.args
+          and 'BAD_SUPVISORS_STATE' in ast.unparse(c.args[0])]
+    sa_ = [c for c in own_nodes(u.node) if isinstance(c, ast.Call) and call_text(c) == 'self.supvisors.starter.start_applications']
+    # the distribution is only reached with both Supvisors-wide sets empty; each refusal is caused by one of them
+    busy = {'self.supvisors.state_modes.starting_identifiers', 'self.supvisors.state_modes.stopping_identifiers'}
+    ok = bool(rs) and len(sa_) == 1 and all(c.lineno < sa_[0].lineno for c in rs) and \
+        {(b, False) for b in busy} <= {tuple(f) for f in fm.at(sa_[0])} and \
+        all(any(f[1] and f[0] in busy for f in fm.at(c)) for c in rs) and \
+        {f[0] for c in rs for f in fm.at(c) if f[1]} >= busy
+    R.check(r7, ok, 'jobs in progress on any instance forbid a new distribution', 'restart_sequence|busy', u.loc(),
+            'restart_sequence does not raise BAD_SUPVISORS_STATE under `state_modes.starting_identifiers or '
+            'state_modes.stopping_identifiers` (found under %s)' % [sorted(tuple(f) for f in fm.at(c)) for c in rs])
+    for nm, fld in (('starting_identifiers', 'starting_jobs'), ('stopping_identifiers', 'stopping_jobs')):
+        pu = P.unit('SupvisorsStateModes.' + nm)
+        rr = [v for v, f, n in returns(pu) if v is not None]
+        ok = len(rr) == 1 and isinstance(rr[0], ast.ListComp) and \
+            ast.unparse(rr[0].generators[0].iter) == 'self.instance_state_modes.items()' and \
+            [ast.unparse(i) for i in rr[0].generators[0].ifs] == ['state_modes.%s' % fld]
+        R.check(r7, ok, '%s lists every instance whose %s flag is set' % (nm, fld), 'restart_sequence|%s' % nm, pu.loc(),
+                'SupvisorsStateModes.%s does not list the instances of instance_state_modes having %s' % (nm, fld))
+
+
 def run(P, R):
     st = supstates.load()
     R.stats['process_states_source'] = st['source']
@@ -294,32 +320,12 @@ def run(P, R):
     R.check(r6, ok, 'host lost: starting failure strategy applied', 'giveup|invalidation', u.loc(),
             'on_instances_invalidation does not call process_failure for the commands of the lost instances')
     shared.request_stamp(P, R, r6)
+    shared.reentrant_iterations(P, R, r6)
 
     # ---------------------------------------------------------------- R7
     r7 = R.rule('R7', 'gate facts', 'restart_sequence (a second automatic distribution) is refused while ANY instance '
                 'still has start or stop jobs in progress (Supvisors-wide starting/stopping identifiers, not the local '
                 'flags), so that a lower sequence still starting elsewhere is not overtaken', 1)
-    u = P.unit('RPCInterface.restart_sequence')
-    fm = factmap(u)
-    rs = [c for c in own_nodes(u.node) if isinstance(c, ast.Call) and call_text(c) == 'self._raise' and c.args
-          and 'BAD_SUPVISORS_STATE' in ast.unparse(c.args[0])]
-    sa_ = [c for c in own_nodes(u.node) if isinstance(c, ast.Call) and call_text(c) == 'self.supvisors.starter.start_applications']
-    # the distribution is only reached with both Supvisors-wide sets empty; each refusal is caused by one of them
-    busy = {'self.supvisors.state_modes.starting_identifiers', 'self.supvisors.state_modes.stopping_identifiers'}
-    ok = bool(rs) and len(sa_) == 1 and all(c.lineno < sa_[0].lineno for c in rs) and \
-        {(b, False) for b in busy} <= {tuple(f) for f in fm.at(sa_[0])} and \
-        all(any(f[1] and f[0] in busy for f in fm.at(c)) for c in rs) and \
-        {f[0] for c in rs for f in fm.at(c) if f[1]} >= busy
-    R.check(r7, ok, 'jobs in progress on any instance forbid a new distribution', 'restart_sequence|busy', u.loc(),
-            'restart_sequence does not raise BAD_SUPVISORS_STATE under `state_modes.starting_identifiers or '
-            'state_modes.stopping_identifiers` (found under %s)' % [sorted(tuple(f) for f in fm.at(c)) for c in rs])
-    for nm, fld in (('starting_identifiers', 'starting_jobs'), ('stopping_identifiers', 'stopping_jobs')):
-        pu = P.unit('SupvisorsStateModes.' + nm)
-        rr = [v for v, f, n in returns(pu) if v is not None]
-        ok = len(rr) == 1 and isinstance(rr[0], ast.ListComp) and \
-            ast.unparse(rr[0].generators[0].iter) == 'self.instance_state_modes.items()' and \
-            [ast.unparse(i) for i in rr[0].generators[0].ifs] == ['state_modes.%s' % fld]
-        R.check(r7, ok, '%s lists every instance whose %s flag is set' % (nm, fld), 'restart_sequence|%s' % nm, pu.loc(),
-                'SupvisorsStateModes.%s does not list the instances of instance_state_modes having %s' % (nm, fld))
+    rule_restart_sequence(P, R, r7)
     R.assume('The order of requests relative to the TRUE process states over all timings, and wait_exit semantics '
              'end-to-end, are NOT decided.')
